@@ -552,6 +552,19 @@ pre_type(struct emu *emu)
 	}
 
 	const uint8_t *data = &emu->ev->payload->jumbo.data[0];
+	uint32_t size = emu->ev->payload->jumbo.size;
+
+	/* The type id must be followed by a nil-terminated label */
+	if (size < 4 + 1) {
+		err("jumbo payload too small: %u bytes", size);
+		return -1;
+	}
+
+	if (data[size - 1] != '\0') {
+		err("label is not nil-terminated");
+		return -1;
+	}
+
 	uint32_t typeid;
 	memcpy(&typeid, data, 4); /* May be unaligned */
 	data += 4;
